@@ -16,7 +16,11 @@ import (
 
 func init() { suites["loc"] = suiteLoc }
 
-var locHosts = []string{"a.test", "b.test", "c.test"}
+var locHosts = []string{"a.test", "b.test", "c.test", "CDN.test"}
+
+// hosts of requests: the configured ones and spellings that differ from them by letter case only (a host list is
+// compared byte for byte: no location "contains" a host it does not list)
+var locReqHosts = []string{"a.test", "b.test", "c.test", "CDN.test", "cdn.test", "A.test"}
 var locPrefixes = []string{"/a", "/a/b", "/c", "/", "/a/", "/ab", "/a?q=1"}
 var locURIs = []string{"/a", "/a/b/c", "/ab", "/c?x=/a", "/", "/b", "/a/", "/A", "/a?q=1", "/cc/a/b", "/a%2Fb", "/%61/b", "/a?q=1&r=2", "/a%3Fq=1"}
 
@@ -87,7 +91,7 @@ func suiteLoc(r *rng, n int) {
 		p := newPipeline(1000, "300s", false, opt, locs, ups)
 		p.setScript(answer(200, http.Header{"Cache-Control": []string{"no-store"}}, []byte("ok")))
 		for q := 0; q < 6; q++ {
-			host := cr.pick(locHosts)
+			host := cr.pick(locReqHosts)
 			uri := cr.pick(locURIs)
 			before := p.calls()
 			p.mu.Lock()
@@ -123,7 +127,7 @@ func suiteLoc(r *rng, n int) {
 		cache.ResetDispatchers([]config.CacheConfig{{Name: "c2", Size: 100, HitForPass: "300s"}})
 		p.srv.Update(opt2)
 		for q := 0; q < 3; q++ {
-			host := cr.pick(locHosts)
+			host := cr.pick(locReqHosts)
 			uri := cr.pick(locURIs)
 			before := p.calls()
 			p.mu.Lock()
